@@ -17,10 +17,12 @@ limitations under the License.
 package websockets
 
 import (
+	"bytes"
 	"encoding/base64"
 	"encoding/json"
 	"errors"
 	"fmt"
+	"io"
 	"log"
 	"net/http"
 	"sync"
@@ -299,10 +301,19 @@ func injectWebsocketMessage(msg *message, injectionPath []string, injectionValue
 		return msg, nil
 	}
 	// Deserialize the websocket message into a JSON object.
+	//
+	// Numbers are kept as they are written, so that reserializing the message does not round
+	// the ones that do not fit a float64 (64-bit IDs, for example).
 	var origJSONComponent map[string]interface{}
-	err := json.Unmarshal(msg.Data, &origJSONComponent)
+	decoder := json.NewDecoder(bytes.NewReader(msg.Data))
+	decoder.UseNumber()
+	err := decoder.Decode(&origJSONComponent)
 	if err != nil {
 		return nil, fmt.Errorf("failed to unmarshal as json message: %v", err)
+	}
+	if _, err := decoder.Token(); err != io.EOF {
+		// Unlike `json.Unmarshal`, a decoder stops at the end of the first value.
+		return nil, fmt.Errorf("failed to unmarshal as json message: unexpected data after the top-level value")
 	}
 	var currJSONComponent map[string]interface{}
 	var ok bool
